@@ -6,6 +6,7 @@ CONSTANTS
   DoublePars = {{}, {1}}
   CompletePars = {{2}}
   EmitLen = 16
+  RandomOps = TRUE
   EmitRare = {}
 INVARIANT InvCyclesComplete
 INVARIANT InvExponentBalance
